@@ -68,13 +68,14 @@ func replaceMatchers(selectors matcherHeap, expr *parser.Expr) {
 			filters = dropMatcher(labels.MetricName, filters)
 
 			// Drop filters which are already present as matchers in the replacement selector.
-			for _, s := range replacement {
-				for _, f := range filters {
-					if s.Name == f.Name && s.Value == f.Value && s.Type == f.Type {
-						filters = dropMatcher(f.Name, filters)
-					}
+			// Only the very same matcher is dropped: other matchers on the same label stay.
+			remaining := make([]*labels.Matcher, 0, len(filters))
+			for _, f := range filters {
+				if !containsMatcher(replacement, f) {
+					remaining = append(remaining, f)
 				}
 			}
+			filters = remaining
 			e.LabelMatchers = replacement
 			*node = &FilteredSelector{
 				Filters:        filters,
@@ -98,19 +99,6 @@ func dropMatcher(matcherName string, originalMatchers []*labels.Matcher) []*labe
 	return originalMatchers
 }
 
-func matcherToMap(matchers []*labels.Matcher) map[string]*labels.Matcher {
-	r := make(map[string]*labels.Matcher, len(matchers))
-	for i := 0; i < len(matchers); i++ {
-		r[matchers[i].Name] = matchers[i]
-	}
-	return r
-}
-
-// matcherHeap is a set of the most selective label matchers
-// for each metrics discovered in a PromQL expression.
-// The selectivity of a matcher is defined by how many series are
-// matched by it. Since matchers in PromQL are open, selectors
-// with the least amount of matchers are typically the most selective ones.
 type matcherHeap map[string][]*labels.Matcher
 
 func (m matcherHeap) add(metricName string, lessSelective []*labels.Matcher) {
@@ -133,24 +121,34 @@ func (m matcherHeap) findReplacement(metricName string, matcher []*labels.Matche
 		return nil, false
 	}
 
-	matcherSet := matcherToMap(matcher)
-	topSet := matcherToMap(top)
-	for k, v := range topSet {
-		m, ok := matcherSet[k]
-		if !ok {
-			return nil, false
-		}
-
-		equals := v.Name == m.Name && v.Type == m.Type && v.Value == m.Value
-		if !equals {
+	// Every matcher of the broader selector has to be one of the input's. The
+	// comparison is per matcher, not per label: a label can have several.
+	for _, t := range top {
+		if !containsMatcher(matcher, t) {
 			return nil, false
 		}
 	}
 
 	// The top matcher and input matcher are equal. No replacement needed.
-	if len(topSet) == len(matcherSet) {
+	equal := true
+	for _, m := range matcher {
+		if !containsMatcher(top, m) {
+			equal = false
+			break
+		}
+	}
+	if equal {
 		return nil, false
 	}
 
 	return top, true
+}
+
+func containsMatcher(matchers []*labels.Matcher, m *labels.Matcher) bool {
+	for _, o := range matchers {
+		if o.Name == m.Name && o.Type == m.Type && o.Value == m.Value {
+			return true
+		}
+	}
+	return false
 }
